@@ -19,7 +19,7 @@ ORACLE = ('SHA-256 of every bundle\'s full reply (stored, undo, direct, retValue
 ASSUMPTIONS = ['generated formulas do not iterate over Python sets and use no time/randomness (user-level nondeterminism)',
                'the history is generated against the hash-seed-0 engine; children replay the same concrete user actions']
 BUDGET = {'quick': dict(examples=400, shards=16, max_seconds=75),
-          'thorough': dict(examples=3600, shards=16, max_seconds=1800)}
+          'thorough': dict(examples=1000, shards=16, max_seconds=1800)}
 SHRINK_BUDGET = {'quick': 30, 'thorough': 200}
 
 _children = {}
